@@ -298,5 +298,8 @@ def cleanup_old(keep=3):
         return
     ents = [(os.path.getmtime(os.path.join(root, e)), e) for e in os.listdir(root) if not e.startswith("_")]
     ents.sort(reverse=True)
-    for _, e in ents[keep:]:
+    now = time.time()
+    for mt, e in ents[keep:]:
+        if now - mt < 3600:
+            continue   # possibly in use by a check running next to this one
         shutil.rmtree(os.path.join(root, e), ignore_errors=True)
